@@ -7,6 +7,7 @@ mod preserve_arguments_side_effects;
 mod scoped_hash_map;
 mod serde_one_or_many;
 mod serde_string_or_struct;
+mod serde_unique_map;
 mod timer;
 
 pub(crate) use expressions_as_statement::{expressions_as_expression, expressions_as_statement};
@@ -17,6 +18,7 @@ pub(crate) use preserve_arguments_side_effects::preserve_arguments_side_effects;
 pub(crate) use scoped_hash_map::ScopedHashMap;
 pub(crate) use serde_one_or_many::deserialize_one_or_many;
 pub(crate) use serde_string_or_struct::string_or_struct;
+pub(crate) use serde_unique_map::deserialize_unique_map;
 use std::{
     ffi::OsStr,
     iter::FromIterator,
